@@ -1,8 +1,8 @@
 package an
 
 import (
-	"go/token"
 	"fmt"
+	"go/token"
 	"go/types"
 	"math"
 	"math/big"
@@ -974,7 +974,17 @@ func (e *Eval) bigMethod(fr *frame, x *ssa.Call, m string, args []AV, st State) 
 		}
 		return set(args[0], BigTop(m+" by "+d.String()))
 	case "QuoRem", "DivMod":
-		divisor(get(2))
+		xv := get(1)
+		k, ok := divisor(get(2))
+		if l, okl := xv.asLayout(); ok && okl && len(args) > 3 {
+			q, okq := l.Shr(k)
+			rm, okr := l.Low(k)
+			if okq && okr {
+				set(args[0], BigLayout(q))
+				set(args[3], BigLayout(rm))
+				return TupleV{args[0], args[3]}
+			}
+		}
 		set(args[0], BigTop(m))
 		if len(args) > 3 {
 			set(args[3], BigTop(m))
